@@ -24,6 +24,7 @@ import (
 	"go.opentelemetry.io/otel"
 	"go.opentelemetry.io/otel/attribute"
 
+	"github.com/dgraph-io/badger/v4/verifhook"
 	"github.com/dgraph-io/badger/v4/y"
 	"github.com/dgraph-io/ristretto/v2/z"
 )
@@ -323,6 +324,7 @@ func (vlog *valueLog) rewrite(f *logFile) error {
 		return err
 	}
 
+	verifhook.Point("gc.afterScan")
 	// vlogGCPauseHook fires here in tests to inject a delete + compaction
 	// into the race window between Phase 1 (scan) and Phase 2 (write-back).
 	if vlog.db.vlogGCPauseHook != nil {
@@ -355,6 +357,7 @@ func (vlog *valueLog) rewrite(f *logFile) error {
 	vlog.opt.Infof("Total entries: %d. Moved: %d", count, moved)
 	vlog.opt.Infof("Removing fid: %d", f.fid)
 	var deleteFileNow bool
+	verifhook.Point("gc.beforeDelete")
 	// Entries written to LSM. Remove the older file now.
 	{
 		vlog.filesLock.Lock()
@@ -417,6 +420,7 @@ func (vlog *valueLog) deleteLogFile(lf *logFile) error {
 	}
 	lf.lock.Lock()
 	defer lf.lock.Unlock()
+	defer verifhook.FS("unlink", lf.path, 0, 0)
 	// Delete fid from discard stats as well.
 	vlog.discardStats.Update(lf.fid, -1)
 
@@ -534,6 +538,7 @@ func (vlog *valueLog) createVlogFile() (*logFile, error) {
 		opt:      vlog.opt,
 	}
 	err := lf.open(path, os.O_RDWR|os.O_CREATE|os.O_EXCL, 2*vlog.opt.ValueLogFileSize)
+	verifhook.FS("create", path, 0, 0)
 	if err != z.NewFile && err != nil {
 		return nil, err
 	}
@@ -640,6 +645,7 @@ func (vlog *valueLog) open(db *DB) error {
 	if err := last.Truncate(int64(lastOff)); err != nil {
 		return y.Wrapf(err, "while truncating last value log file: %s", last.path)
 	}
+	verifhook.FS("truncate", last.path, int64(lastOff), 0)
 
 	// Don't write to the old log file. Always create a new one.
 	if _, err := vlog.createVlogFile(); err != nil {
@@ -665,6 +671,7 @@ func (vlog *valueLog) Close() error {
 		if terr := lf.Close(offset); terr != nil && err == nil {
 			err = terr
 		}
+		verifhook.FS("sync", lf.path, 0, offset)
 	}
 	if vlog.discardStats != nil {
 		vlog.db.captureDiscardStats()
@@ -770,6 +777,7 @@ func (vlog *valueLog) sync() error {
 	vlog.filesLock.RUnlock()
 
 	err := curlf.Sync()
+	verifhook.FS("sync", curlf.path, 0, 0)
 	curlf.lock.RUnlock()
 	return err
 }
@@ -834,6 +842,7 @@ func (vlog *valueLog) write(reqs []*request) error {
 			if err := curlf.Sync(); err != nil {
 				vlog.opt.Errorf("Error while curlf sync: %v\n", err)
 			}
+			verifhook.FS("sync", curlf.path, 0, int64(vlog.woffset()))
 		}
 	}()
 
